@@ -206,3 +206,58 @@ func VerifC05_then_chain_of_three_equals_pipes() {
 	c05SameRecords(chained, piped, "C05/chain3/then-equals-pipe")
 	verifReach("C05/chain3/end")
 }
+
+// C05 (DSL half) — NR/FNR/FILENAME/FILENUM in the DSL are those of the context the record carries
+// (symbolic here), NF is the current field count even mid-expression, and end blocks see the
+// final NR.  Real put verb on the pre-parsed program.
+func VerifC05_dsl_context_variables() {
+	tr := verifPut(verifDSL(`$nr = NR; $fnr = FNR; $f = FILENAME; $k = FILENUM; $nf1 = NF; $new = 1; $nf2 = NF; unset $nr; $nf3 = NF; end { @final = NR; emit @final }`))
+	idc, odc := make(chan bool, 1), make(chan bool, 8)
+	out := []*types.RecordAndContext{}
+	nr := verifInt64("NR")
+	fnr := verifInt64("FNR")
+	fnum := verifInt64("FILENUM")
+	verifAssume(nr >= 1 && nr <= 40 && fnr >= 1 && fnr <= nr && fnum >= 1 && fnum <= 9)
+	nfields := 1 + verifChoice("fields", 3)
+	var last types.Context
+	for i := int64(0); i < 2; i++ {
+		ctx := types.Context{FILENAME: "file-" + string(rune('a'+i)), FILENUM: fnum + i, NR: nr + i, FNR: fnr + i}
+		last = ctx
+		rec := mlrval.NewMlrmapAsRecord()
+		for j := 0; j < nfields; j++ {
+			rec.PutReference("c"+string(rune('0'+j)), mlrval.FromInt(int64(j)))
+		}
+		verifAssert(tr.Transform(types.NewRecordAndContext(rec, &ctx), &out, idc, odc) == nil, "C05/dsl/transform-ok")
+	}
+	verifAssert(tr.Transform(types.NewEndOfStreamMarker(&last), &out, idc, odc) == nil, "C05/dsl/end-ok")
+	verifAssert(len(out) == 4, "C05/dsl/two-records-one-emit-and-the-marker")
+	if len(out) != 4 {
+		return
+	}
+	for i := int64(0); i < 2; i++ {
+		r := out[i].Record
+		get := func(k string) int64 {
+			v := r.Get(k)
+			if v == nil {
+				return -1
+			}
+			n, _ := v.GetIntValue()
+			return n
+		}
+		verifAssert(r.Get("nr") == nil, "C05/dsl/unset-field-gone")
+		verifAssert(get("fnr") == fnr+i, "C05/dsl/FNR-is-the-record's")
+		verifAssert(get("k") == fnum+i, "C05/dsl/FILENUM-is-the-record's")
+		verifAssert(r.Get("f") != nil && r.Get("f").String() == "file-"+string(rune('a'+i)), "C05/dsl/FILENAME-is-the-record's")
+		// nf1: the input fields + nr, fnr, f, k assigned so far; nf2: + nf1 and new; nf3: + nf2, - nr
+		verifAssert(get("nf1") == int64(nfields)+4, "C05/dsl/NF-counts-fields-assigned-so-far")
+		verifAssert(get("nf2") == int64(nfields)+6, "C05/dsl/NF-mid-expression-after-new-fields")
+		verifAssert(get("nf3") == int64(nfields)+6, "C05/dsl/NF-after-unset")
+	}
+	fin := out[2].Record
+	verifAssert(fin != nil && fin.Get("final") != nil, "C05/dsl/end-block-emits")
+	if fin != nil && fin.Get("final") != nil {
+		n, ok := fin.Get("final").GetIntValue()
+		verifAssert(ok && n == nr+1, "C05/dsl/end-block-sees-the-final-NR")
+	}
+	verifReach("C05/dsl/context/end")
+}
